@@ -29,9 +29,9 @@ try:
                 bg = groups(b.stdout) if b.returncode == 1 else set()
                 c = subprocess.run([os.path.join(old, 'check'), pid, '--tier', 'quick'], cwd=old, env=env, capture_output=True, text=True, timeout=1500)
                 new = groups(c.stdout) - bg
-                rec = {'checks_at': commit, 'exit': c.returncode, 'caught': c.returncode == 1 and bool(new), 'new_groups': sorted(' '.join(g) for g in new)[:6]}
+                rec = {'check_quick': {'exit': c.returncode, 'caught': c.returncode == 1 and bool(new), 'new_groups': sorted(' '.join(g) for g in new)[:6]}, 'check_thorough': None, 'checks_at': commit, 'note': f'quick check as it was at /verif commit {commit}'}
             except subprocess.TimeoutExpired:
-                rec = {'checks_at': commit, 'exit': None, 'caught': False, 'note': 'the check did not finish within 25 min (no verdict)'}
+                rec = {'check_quick': {'exit': None, 'caught': False, 'new_groups': []}, 'check_thorough': None, 'checks_at': commit, 'note': 'the check did not finish within 25 min (no verdict)'}
                 subprocess.run("pkill -f 'verif-ol[d]' ; pkill -f 'verif-firs[t]'", shell=True)
             mp = os.path.join(V, 'seeded', name, 'meta.json')
             m = json.load(open(mp))
